@@ -269,4 +269,22 @@ example : step exS (.read .msg false none)
 example : step exS (.read .frame false none) (.frames ((expectFrames exSession).drop 1)) = none := by decide
 example : step exS (.read .frame true none) (.frames (expectFrames exSession)) = some exS := by decide
 
+/-- **The scripted segmentation loses nothing**: for every list of `cut` lengths (a cut of 0 queues an empty segment: a transport
+read that completes with no bytes and no error) the segments the harness feeds, concatenated, are the byte stream. So the
+hypothesis `segs.flatten = wire s` of the theorems above holds for every segmentation tie D executes, empty reads included. -/
+theorem C06_segments_flatten (cuts : List Nat) (bs : List UInt8) : (segments cuts bs).flatten = bs := by
+  induction cuts generalizing bs with
+  | nil =>
+    unfold segments
+    split <;> simp_all
+  | cons n r ih =>
+    unfold segments
+    split
+    · simp [ih]
+    · split
+      · exact ih bs
+      · simp [ih, List.take_append_drop]
+
+example : segments [1, 0, 2] [10, 20, 30, 40] = [[10], [], [20, 30], [40]] := by decide
+
 end Sonic.Props.C06
